@@ -165,6 +165,8 @@ let main_seq file do_abs =
   let dirty = ref true and last_abs = ref ("", 0, 0, true) and last_counts = ref (0, 0) in
   let ntxn_total = ref 0 and nacq_total = ref 0 in
   let nsteps = ref 0 in
+  (* decoded slots of every directory at the last checkpoint, and the step it was taken at (DirModel.step_ok_b) *)
+  let slot_tab = ref [] and slot_step = ref (-10) and slot_note = ref "" in
   let lazy_step = ref false in   (* Q: the shrinker may be running, no dump was taken: reply only *)
   let rtmax = ref 0 in
   (try
@@ -273,6 +275,7 @@ let main_seq file do_abs =
            if do_abs && not !dirty && !kinodes = [] && !kdirs = [] && (let (_, _, _, a) = !last_abs in a) then begin
              (* disk and reference unchanged: only the in-memory allocators can have moved *)
              let (dfb, dfi) = !last_counts in
+             slot_step := !nsteps;
              if (not quiescent) || (dfb = fb && dfi = fi) then !last_abs
              else (Printf.sprintf " alloc=mem(%d,%d)/disk(%d,%d)" fb fi dfb dfi, 0, 0, false)
            end
@@ -280,6 +283,14 @@ let main_seq file do_abs =
              dirty := false;
              let ar = abs_disk !params.p_name_max !params.p_maxfilesize !sz quiescent !disk in
              let mm = cmp_state !st ar in
+             (* between two consecutive checkpoints no directory shrinks and no entry changes its slot *)
+             let tab = if List.length ar.r_objs > 4000 then [] else dir_slot_table !sz !disk ar in
+             if !slot_step = !nsteps - 1 then begin
+               match slots_moved !slot_tab tab with
+               | [] -> ()
+               | i :: _ -> slot_note := Printf.sprintf " pagemodel=differs slotmoved=%d" (int_of_n i)
+             end;
+             slot_tab := tab; slot_step := !nsteps;
              let l = mk_layout !sz in
              let total_data = int_of_n !sz - int_of_n l.l_dstart in
              let disk_fb = total_data - int_of_n ar.r_used_blocks in
@@ -319,6 +330,8 @@ let main_seq file do_abs =
                  | None -> detail)
               | _ -> detail)
            | _ -> detail in
+         let detail = detail ^ !slot_note in
+         slot_note := "";
          let illformed (n : byte0 list) = n = [] || List.exists (fun b -> let v = int_of_n (Extracted.to_N b) in v = 0x2f || v = 0) n in
          let detail = match !call with
            | Some (CCreate (_, n, _)) | Some (CMkdir (_, n)) | Some (CSymlink (_, n, _)) | Some (CRename (_, _, _, n)) when illformed n && not reply_ok -> detail ^ " name=illformed"
